@@ -76,6 +76,10 @@ class Ctx(object):
         self.extra = {}
         self.last_beat = time.time()
         self.rng = random.Random("%s/%s/%s/%s" % (prop, tier, seed, shard[0]))
+        try:
+            self.known_keys = {k["key"] for k in load_known().get("known", []) if k["property"] == prop}
+        except Exception:
+            self.known_keys = set()
 
     # --- helpers for checks -------------------------------------------------
     @property
@@ -111,7 +115,7 @@ class Ctx(object):
 
     def violation(self, key, what, witness=None):
         """key: mechanism key (never seeds / random values)"""
-        self.counters["violations_raw"] += 1
+        self.counters["known_findings_raw" if key in self.known_keys else "violations_raw"] += 1
         for v in self.violations:
             if v["key"] == key:
                 v["count"] += 1
